@@ -175,7 +175,9 @@ impl Prop for C13 {
                         name, line, e.line, e.text, src
                     ));
                 }
-                if !e.text.contains(&format!("line {}", line)) {
+                // the rendered message must carry that line number (in whatever wording)
+                let names_line = e.text.split(|c: char| !c.is_ascii_digit()).any(|w| w == line.to_string());
+                if !names_line {
                     return Outcome::fail(format!("error text {:?} does not name line {}", e.text, line));
                 }
                 let before = &src[..src.len().min(src.match_indices('\n').nth(line.saturating_sub(2) as usize).map_or(0, |(i, _)| i))];
